@@ -19,7 +19,7 @@ from vf import core, frames, fresh, fresh_tasks
 PROPERTY = "C07"
 RULE = (
     "cases = histories (operation sequences): build(formula, frame), evaluate-common(design, frame), "
-    "evaluate-group(design, frame), set-config(mode), model_description(formula), rebuild(design) over a pool of 13 "
+    "evaluate-group(design, frame), set-config(mode), model_description(formula), rebuild(design) over a pool of 15 "
     "formulas x 4 frames (one training frame has a column of mean exactly 0, one a missing value and a formula uses every column of it; one with unseen levels so that the configuration matters, one with the shape of the training frame; one formula takes a function from extra_namespace and all builds share one captured Environment); all histories of "
     "length <= 3 over a reduced pool are enumerated, longer ones (up to 30 steps) come from a Hypothesis rule-based "
     "state machine; distinct = distinct history; non-trivial = some design is evaluated at least twice with different "
@@ -44,6 +44,8 @@ FORMULAS = [
     "y ~ 0 + T(g, 'g1') + poly(z, 2)",
     "y ~ x + z + w + f + g + h + C(k)",  # uses every column of the frames (one of which has a missing value in w)
     "y ~ bs(x, knots=kn) + f",  # `kn` is a numpy array of the caller's namespace, not in increasing order
+    "y ~ C(g, enc) + C(f, enc)",  # `enc` is one encoding object of the caller's namespace, used for two factors and by every design
+    "y ~ x + f:g:h",  # the library adds lower-order terms on its own: which ones, and in which order, must not vary
 ]
 USES_EXT = {8}
 MODES = ["error", "warning", "silent"]
@@ -106,7 +108,10 @@ class History:
 
         self.env = Environment.capture(0)  # one captured environment, reused by every build of this history
         self.builds = 0
-        self.namespaces = {v: {"np": np, "ext": fresh_tasks.EXT[v], "kn": np.array(fresh_tasks.KN)} for v in ("double", "triple")}
+        from formulae.categorical import Sum
+
+        self.namespaces = {v: {"np": np, "ext": fresh_tasks.EXT[v], "kn": np.array(fresh_tasks.KN), "enc": Sum()} for v in ("double", "triple")}
+        self.enc_state = {v: dict(vars(d["enc"])) for v, d in self.namespaces.items()}
         self.namespace = self.namespaces["double"]
         self.ns_ids = {v: {k: id(o) for k, o in d.items()} for v, d in self.namespaces.items()}
         self.variants = []
@@ -244,6 +249,12 @@ class History:
                 self.fail("caller_namespace", f"after step {step} {self.ops[step]}: an array of the caller's namespace was modified in place "
                           f"({d['kn'].tolist()}, was {fresh_tasks.KN})", "namespace_value")
                 d["kn"][:] = fresh_tasks.KN
+            if dict(vars(d["enc"])) != self.enc_state[v]:
+                self.fail("caller_namespace", f"after step {step} {self.ops[step]}: the encoding object of the caller's namespace changed "
+                          f"({vars(d['enc'])}, was {self.enc_state[v]})", "namespace_object")
+                for k_ in list(vars(d["enc"])):
+                    delattr(d["enc"], k_)
+                vars(d["enc"]).update(self.enc_state[v])
         if config["EVAL_UNSEEN_CATEGORIES"] != self.mode:
             self.fail("config", f"after step {step} {self.ops[step]}: configuration is {config['EVAL_UNSEEN_CATEGORIES']!r}, set to {self.mode!r}", "config")
             config["EVAL_UNSEEN_CATEGORIES"] = self.mode
@@ -297,7 +308,86 @@ def run_ops(ctx, ops):
 
 
 def replay(ctx, case):
-    run_ops(ctx, case["ops"])
+    if case.get("kind") == "determinism":
+        determinism(ctx, [case["task"]], seeds=(case["hashseed"],))
+    elif case.get("kind") == "caller_scenario":
+        caller_scenarios(ctx)
+    else:
+        run_ops(ctx, case["ops"])
+
+
+# ---- the caller goes on working between two builds ---------------------------------------------------------------
+def caller_scenarios(ctx):
+    """A caller builds a design whose formula uses one of its variables, changes that variable, and evaluates the design
+    later.  Whether ANOTHER design was built in between (same function, same or other formula) must not matter."""
+    from formulae import design_matrices
+
+    frame = frames.build(FRAMES[0])
+    new = frames.build(FRAMES[3])
+
+    def scenario(other, where):
+        mult = 2.0
+        first = design_matrices("y ~ 0 + I(x * mult) + f", frame)
+        mult = 3.0  # the caller re-uses the name
+        if other is not None and where == "same_function":
+            design_matrices(other, frame)
+        elif other is not None:
+            (lambda: design_matrices(other, frame))()
+        assert mult == 3.0
+        return np.asarray(first.common.evaluate_new_data(new).design_matrix, dtype=float)
+
+    base = scenario(None, None)
+    for other in ("y ~ x", "y ~ 0 + I(x * mult) + f", "y ~ scale(z) + (1 | g)"):
+        for where in ("same_function", "nested_function"):
+            if where == "nested_function" and "mult" in other:
+                continue  # `mult` is not a variable of the nested function
+            case = {"kind": "caller_scenario", "other": other, "where": where}
+            ctx.count(core.canon(case), True, ["caller_scenario"], stratum="caller_scenario")
+            try:
+                with core.Guard():
+                    got = scenario(other, where)
+            except Exception as e:  # pylint: disable=broad-except
+                ctx.fail("other_build", case, f"building {other!r} in between raised {type(e).__name__}: {e}", core.exc_key(e))
+                continue
+            if got.shape != base.shape or not np.array_equal(got, base, equal_nan=True):
+                ctx.fail("other_build", case, f"'y ~ 0 + I(x * mult) + f' evaluated on new data gives another matrix when {other!r} was built "
+                         f"in between ({where}): first row {got[0].tolist()} vs {base[0].tolist()}", where)
+
+
+# ---- the same operation in brand-new interpreters with other string hash seeds ----------------------------------
+def determinism(ctx, tasks=None, seeds=(1, 2, 11)):
+    """design_matrices and model_description are deterministic: a build or a description gives the same answer in every
+    new interpreter, whatever seed it hashes strings with (set and dict-of-set iteration order must not show)."""
+    import json
+    import os
+    import subprocess
+    import sys
+
+    if tasks is None:
+        tasks = [{"op": "describe", "formula": f} for f in FORMULAS]
+        tasks += [{"op": "build", "formula": f, "train": FRAMES[ti], "extra": ("double" if fi in USES_EXT else None)}
+                  for fi, f in enumerate(FORMULAS) for ti in (0, 1)]
+    results = {}
+    procs = []
+    for hs in (0,) + tuple(seeds):
+        env = dict(os.environ, PYTHONHASHSEED=str(hs))
+        procs.append((hs, subprocess.Popen([sys.executable, "-W", "ignore", "-m", "vf.fresh_tasks"], stdin=subprocess.PIPE, stdout=subprocess.PIPE,
+                                           stderr=subprocess.DEVNULL, env=env, text=True)))
+    payload = json.dumps(tasks)
+    for hs, p in procs:
+        try:
+            out, _ = p.communicate(payload, timeout=600)
+            results[hs] = json.loads(out)
+        except Exception as e:  # pylint: disable=broad-except
+            p.kill()
+            raise core.HarnessError(f"fresh interpreter with PYTHONHASHSEED={hs} failed: {type(e).__name__}: {e}") from e
+    for i, task in enumerate(tasks):
+        for hs in seeds:
+            case = {"kind": "determinism", "task": task, "hashseed": hs}
+            ctx.count(core.canon(case), True, ["determinism:" + task["op"]], stratum="determinism")
+            if results[hs][i] != results[0][i]:
+                ctx.fail("determinism", case, f"{task['op']} of {task['formula']!r} gives another result in a new interpreter with "
+                         f"PYTHONHASHSEED={hs} than with PYTHONHASHSEED=0: {str(results[hs][i])[:150]} vs {str(results[0][i])[:150]}", task["op"])
 
 
 # ---- exhaustive short histories -----------------------------------------------------------------------
@@ -460,6 +550,8 @@ def run(ctx):
     quick = ctx.tier == "quick"
     ns = core.NPROC
     ctx.notes.append("fresh process-state results computed for %d distinct oracle tasks" % prefill())
+    determinism(ctx)
+    caller_scenarios(ctx)
     ctx.parallel(_exh_worker, [(k, ns) for k in range(ns)], nproc=ns)
     ctx.exhaustive["histories of length <= 3 over 2 formulas x 2 frames x 3 modes (14-operation alphabet)"] = {"complete": True}
     ns2 = core.NPROC
